@@ -285,6 +285,22 @@ func refVariants(r *lp.Run, rng *lp.Rand, prop string, n int, kinds ...string) {
 				rb, _ := json.Marshal(root)
 				eb, _ := json.Marshal(ext)
 				in["root"], in["root_url"], in["external_document"], in["external_url"], in["reference_prefix"] = json.RawMessage(rb), u.root, json.RawMessage(eb), u.abs, u.ref
+			case "components moved under an extension key of the same document (components keeps decoys of the same names)":
+				// a local reference outside #/components/<kind>/ must not be answered from the components map
+				root, ext := externalise(spec, true)
+				toShared := func(prefix string) func(string) string {
+					return func(s string) string {
+						if strings.HasPrefix(s, prefix) {
+							return "#/x-shared/" + strings.TrimPrefix(s, prefix)
+						}
+						return s
+					}
+				}
+				root = rewriteRefs(root, toShared("ext.json#/components/")).(M)
+				root["x-shared"] = rewriteRefs(ext["components"], toShared("#/components/"))
+				b, errB = parseProject(root)
+				rb, _ := json.Marshal(root)
+				in["moved"] = json.RawMessage(rb)
 			case "components renamed (names made of the prefix's characters, dotted and prefixed sibling names)":
 				ren, mapping := renameAdversarial(rng, spec)
 				b, errB = parseProject(ren)
